@@ -314,6 +314,117 @@ func triple(a, b, c int, rng *rand.Rand) vt.M {
 		}
 	}
 
+	// field accessors at every index: Raw.GetHopField / GetInfoField against the decoded representation,
+	// Raw.SetHopField / SetInfoField must change exactly that field (seen through a full decode)
+	gh, gi, sh, si := make([]int, nh), make([]int, ni), make([]int, nh), make([]int, ni)
+	ghd, gid, oobErr, oobChanged := 0, 0, 0, 0
+	var orig *scion.Decoded
+	g.run("ToDecoded(reference)", func() {
+		r, _ := fresh(0, 0)
+		orig, _ = r.ToDecoded()
+	})
+	markHop := path.HopField{ExpTime: 77, ConsIngress: 60000, ConsEgress: 60001, Mac: [6]byte{9, 8, 7, 6, 5, 4}}
+	markInf := path.InfoField{ConsDir: true, SegID: 60000, Timestamp: 123456}
+	changedHops := func(d *scion.Decoded) (idx, n int) { // which hop fields differ from the reference
+		idx = -1
+		for i := range d.HopFields {
+			if d.HopFields[i] != orig.HopFields[i] {
+				idx = i
+				n++
+			}
+		}
+		return
+	}
+	changedInfs := func(d *scion.Decoded) (idx, n int) {
+		idx = -1
+		for i := range d.InfoFields {
+			if d.InfoFields[i] != orig.InfoFields[i] {
+				idx = i
+				n++
+			}
+		}
+		return
+	}
+	if orig != nil {
+		for i := 0; i < nh; i++ {
+			gh[i], sh[i] = -2, -2
+			g.run("Raw.GetHopField", func() {
+				r, _ := fresh(0, 0)
+				hf, err := r.GetHopField(i)
+				gh[i] = -1
+				if err == nil {
+					gh[i] = int(hf.ConsIngress) - 1
+					if hf == orig.HopFields[i] {
+						ghd++
+					}
+				}
+			})
+			g.run("Raw.SetHopField", func() {
+				r, _ := fresh(0, 0)
+				sh[i] = -1
+				if err := r.SetHopField(markHop, i); err != nil {
+					return
+				}
+				d, err := r.ToDecoded()
+				if err != nil {
+					return
+				}
+				hi, hn := changedHops(d)
+				_, in := changedInfs(d)
+				if hn == 1 && in == 0 && d.HopFields[hi] == markHop && d.PathMeta == orig.PathMeta {
+					sh[i] = hi
+				}
+			})
+		}
+		for j := 0; j < ni; j++ {
+			gi[j], si[j] = -2, -2
+			g.run("Raw.GetInfoField", func() {
+				r, _ := fresh(0, 0)
+				inf, err := r.GetInfoField(j)
+				gi[j] = -1
+				if err == nil {
+					gi[j] = int(inf.SegID) - 1
+					if inf == orig.InfoFields[j] {
+						gid++
+					}
+				}
+			})
+			g.run("Raw.SetInfoField", func() {
+				r, _ := fresh(0, 0)
+				si[j] = -1
+				if err := r.SetInfoField(markInf, j); err != nil {
+					return
+				}
+				d, err := r.ToDecoded()
+				if err != nil {
+					return
+				}
+				_, hn := changedHops(d)
+				ii, in := changedInfs(d)
+				if in == 1 && hn == 0 && d.InfoFields[ii] == markInf && d.PathMeta == orig.PathMeta {
+					si[j] = ii
+				}
+			})
+		}
+		// one past the end: refused, nothing written
+		oob := func(op string, f func(r *scion.Raw) error) {
+			g.run(op, func() {
+				r, buf := fresh(0, 0)
+				before := append([]byte{}, buf...)
+				if f(r) != nil {
+					oobErr++
+				}
+				if !bytes.Equal(before, buf) {
+					oobChanged++
+				}
+			})
+		}
+		oob("GetHopField(NumHops)", func(r *scion.Raw) error { _, err := r.GetHopField(nh); return err })
+		oob("SetHopField(NumHops)", func(r *scion.Raw) error { return r.SetHopField(markHop, nh) })
+		oob("GetInfoField(NumINF)", func(r *scion.Raw) error { _, err := r.GetInfoField(ni); return err })
+		oob("SetInfoField(NumINF)", func(r *scion.Raw) error { return r.SetInfoField(markInf, ni) })
+	}
+
 	// all 256 pointer pairs (in and out of range): nothing may panic
 	for p := 0; p < 256; p++ {
 		ci, hh := p>>6, p&63
@@ -340,7 +451,8 @@ func triple(a, b, c int, rng *rand.Rand) vt.M {
 	}
 	return vt.M{"ev": "tri", "s": seg[:], "ni": ni, "nh": nh, "cells": cells, "rr": rr, "rd": rd, "r2": r2,
 		"agree": agree, "restored": restored, "tdr": tdr, "hops1": hops1, "infs1": infs1,
-		"cons0": cons0, "cons1": cons1, "panics": g.panics, "pop": g.first}
+		"cons0": cons0, "cons1": cons1, "gh": gh, "ghd": ghd, "gi": gi, "gid": gid, "sh": sh, "si": si,
+		"ooberr": oobErr, "oobchanged": oobChanged, "panics": g.panics, "pop": g.first}
 }
 
 func emptyPath(rng *rand.Rand) vt.M {
